@@ -134,10 +134,48 @@ def check_case(exe, c):
     return ("; ".join(problems) if problems else None), r
 
 
+def malformed_search(exe, n=3000):
+    """calls that are malformed in exactly one place (any block, also far behind the end of the current file) must be rejected"""
+    rnd = random.Random(11)
+    for _ in range(n):
+        L = rnd.choice([2, 3, 4, 5, 6])
+        c = random_case(rnd, L)
+        if not wellformed(c):
+            continue
+        c["left"] = rnd.choice([c["left"], 1, 1])          # short windows: most blocks lie beyond the end of the file
+        j = rnd.randrange(1, L)
+        kind = rnd.choice(["g_order", "b_order", "overlap", "beyond"])
+        g, b = list(c["g"]), list(c["b"])
+        if kind == "g_order":
+            g[j] = g[j - 1] - rnd.choice([0, 1])
+        elif kind == "b_order":
+            b[j] = b[j - 1]
+        elif kind == "overlap":
+            g[j] = g[j - 1] + (b[j] - b[j - 1]) - 1
+        else:
+            b[j] = c["V"] + rnd.choice([0, 3])
+        if kind == "overlap" and g[j] <= g[j - 1]:
+            continue
+        c2 = dict(c, g=g, b=b)
+        # keep the part the harness derives from the arrays consistent: 'next' is G(w) of the (valid) prefix before the defect
+        if c2["w"] >= c["b"][j]:
+            continue
+        r = run_case(exe, c2)
+        if "crash" in r:
+            return "the real function aborted on a malformed call %s: %r" % (c2, r), c2
+        if r["rows_n"] != -1:
+            return "malformed call accepted (%s at block %d of %d): %s -> rows_to_write=%d" % (kind, j, L, c2, r["rows_n"]), c2
+    return None, None
+
+
 def replay(o, model):
     L = o.meta.get("L", 2)
     d, exe = build()
     try:
+        if "reject" in o.label:
+            msg, c = malformed_search(exe)
+            if msg:
+                return True, "create_rf_data_index: " + msg, c
         c = model_case(model or {}, L)
         if wellformed(c):
             msg, r = check_case(exe, c)
